@@ -8,7 +8,7 @@ CONSTANTS
   CallSeeds = {"s1", "s2"}
   F = 3
   Blocks = {0, 1, 3, 4, 12, 13, 24, 15}
-  MaxCalls = 3
+  MaxCalls = 2
   Execs = {"e1"}
   Stateless = TRUE
   FreshArrays = TRUE
